@@ -400,6 +400,9 @@ def check_C01(ctx):
         for n in (0, 1, 2, 3):
             for t in itertools.product(btoks, repeat=n):
                 blank.append({"op": "run", "env": {}, "version": None, "root": gen.mkcmd("app", decls=copy.deepcopy(bdecls), spec=sp, policy=0), "argv": list(t)})
+    # the recorded witness of K2, so that the finding is looked at (and reported) on every run
+    kd = [gen.mkopt("custom", "a", custom=dict(gen.CUSTOM_FLAG)), gen.mkopt("custom", "b", custom=dict(gen.CUSTOM_FLAG))]
+    blank.append({"op": "run", "env": {}, "version": None, "root": gen.mkcmd("app", decls=kd, spec="-ab -a", policy=0), "argv": ["-a", "-a"]})
     number(blank, start=len(cases) + len(sc))
     res3 = correspond(ctx, blank, fields, "specs of blanks and padded specs")
     st3 = judge_sentences(ctx, blank, res3, "C01")
@@ -517,6 +520,24 @@ def check_C03(ctx):
             for env in ({}, {"VE_E": "1"}, {"VE_L": "true"}, {"VE_E": "1", "VE_L": "true"}):
                 root = gen.mkcmd("app", decls=gdecl, spec=sp, policy=0)
                 run_cases.append({"op": "run", "env": env, "version": None, "root": root, "argv": argv})
+    # (2b) malformed clusters (a dash where a letter is expected) meeting flags that the environment backs, reached through
+    # option groups, with and without a spec
+    mdecl = [gen.mkopt("bool", "f force", env="VE_F", **{"def": ["false"]}), gen.mkopt("bool", "q", **{"def": ["false"]}),
+             gen.mkopt("bool", "v verbose", env="VE_V", **{"def": ["false"]}), gen.mkopt("strings", "o", env="VE_O"), gen.mkarg("strings", "X")]
+    mtoks = ["-f-", "-v-", "-q-", "-fv-", "-qf-", "-f-x", "-v-=1", "-o-", "-q", "-f", "-v", "x", "--", "-fq", "-ov", "-f=", "-"]
+    mspecs = ["", "[OPTIONS] [X...]", "[-fqv] [X...]", "-fqv X", "[-f] [-q] [-v] [X]", "(-f | -q | -v)... [X...]", "[-fq]... [-v] [X]", "[OPTIONS]... [X]",
+              "[-fqvo] -- [X...]", "[-f... -q...]... [X]"]
+    menvs = [{}, {"VE_F": "true"}, {"VE_V": "true"}, {"VE_F": "true", "VE_V": "true", "VE_O": "a,b"}, {"VE_F": "false"}]
+    n_mal = 0
+    for sp in mspecs:
+        lines = [list(t) for n in (1, 2) for t in itertools.product(mtoks, repeat=n)]
+        lines += [[rng.choice(mtoks) for _ in range(3)] for _ in range(ctx.scale(40, 400))]
+        for argv in lines:
+            env = rng.choice(menvs) if len(argv) > 1 else None
+            for e in ([env] if env is not None else menvs):
+                decl_set = [d for d in mdecl if d["t"] == "opt"] if sp == "" and rng.random() < 0.5 else mdecl
+                run_cases.append({"op": "run", "env": e, "version": None, "root": gen.mkcmd("app", decls=copy.deepcopy(decl_set), spec=sp, policy=0), "argv": argv})
+                n_mal += 1
     # (3) many options that the environment satisfies without consuming anything: the search must not
     # revisit the states it has already tried (2^k or k! paths otherwise)
     letters = "abcdefgijklmnopqrstuvwxyz"
@@ -558,7 +579,7 @@ def check_C03(ctx):
             ctx.violation("model-fuel", "the model runs out of fuel on spec %r argv %r (its termination theorem "
                           "would be false here)" % (c["root"]["spec"], c["argv"]), case=c)
     ctx.stream("specs x command lines x env subsets", 0, arbitrary_strings=n_strings, hostile_specs=len(hostile),
-               many_env_backed_options=n_many)
+               many_env_backed_options=n_many, malformed_clusters=n_mal)
     ctx.sample({"spec": "[[X]...]...", "argv": [], "env": {}})
     ctx.sample({"spec": "[-e...] X", "argv": ["x"], "env": {"VE_E": "1"}})
     return ("every concatenation of up to %d items of a 25-item spec alphabet and random byte strings as specs; "
